@@ -7,6 +7,7 @@ import (
 	"os"
 	"runtime/pprof"
 	"sort"
+	"strings"
 	"syscall"
 	"time"
 
@@ -27,18 +28,21 @@ type params struct {
 	bRecycle   int
 	prefixLenA int
 	a1Canon    bool // cfg 1: histories modulo the a<->b tag symmetry
+	eLen       int  // (e) layouts of up to this many letters
 }
 
 func tierParams() params {
 	if ev.Thorough() {
-		return params{nu: 3, shapes: []int{3, 2, 1}, walkDepth: 4, crossLen: 2, a1Depth: 5, a1Canon: true, a2Depth: 4, budget: 17 * time.Minute, aRecycle: 150, bRecycle: 3, prefixLenA: 2}
+		return params{nu: 3, shapes: []int{3, 2, 1}, walkDepth: 4, crossLen: 2, a1Depth: 5, a1Canon: true, a2Depth: 4, budget: 17 * time.Minute, aRecycle: 150, bRecycle: 3, prefixLenA: 2, eLen: 4}
 	}
-	return params{nu: 2, shapes: []int{2, 1}, walkDepth: 4, crossLen: 0, a1Depth: 4, a1Canon: true, a2Depth: 3, budget: 4 * time.Minute, aRecycle: 150, bRecycle: 3, prefixLenA: 2}
+	return params{nu: 2, shapes: []int{2, 1}, walkDepth: 4, crossLen: 0, a1Depth: 4, a1Canon: true, a2Depth: 3, budget: 4 * time.Minute, aRecycle: 150, bRecycle: 3, prefixLenA: 2, eLen: 3}
 }
 
 type item struct {
-	part   string // a | b | af (cfg 2 family "missed update and delete")
-	prefix []int  // a: indices of the first ops
+	part   string // a | b | af (cfg 2 family "missed update and delete") | e (merge hook layouts) | t (tree build under faults)
+	op     string // t
+	ecases []ecase
+	prefix []int // a: indices of the first ops
 	assign []int
 	cfg    int
 	shape  int
@@ -48,6 +52,23 @@ type item struct {
 
 func items(p params) []item {
 	var as, bs []item
+	// (e): chunks of 10 layouts x both expiry settings; (t): one item per (base, op). Cheap (seconds); they go first
+	// so that an internal deadline on a loaded machine never cuts them
+	var first []item
+	var chunk []ecase
+	for _, l := range eLayouts(p.eLen) {
+		chunk = append(chunk, ecase{Letters: l, ExpireSec: 3600}, ecase{Letters: l, ExpireSec: 0})
+		if len(chunk) >= 20 {
+			first = append(first, item{part: "e", ecases: chunk})
+			chunk = nil
+		}
+	}
+	if len(chunk) > 0 {
+		first = append(first, item{part: "e", ecases: chunk})
+	}
+	for _, c := range tCombos() {
+		first = append(first, item{part: "t", nu: c[0].(int), op: c[1].(string)})
+	}
 	for _, cfg := range []int{1, 2} {
 		n := len(alphabetA(cfg))
 		for i := 0; i < n; i++ {
@@ -71,8 +92,19 @@ func items(p params) []item {
 			bs = append(bs, item{part: "b", nu: 2, shape: 2, assign: a, cross: p.crossLen})
 		}
 	}
+	if only := os.Getenv("C18_ONLY"); only != "" { // development aid: run only the listed parts (e.g. "e,t")
+		keep := func(l []item) (o []item) {
+			for _, it := range l {
+				if strings.Contains(","+only+",", ","+it.part+",") {
+					o = append(o, it)
+				}
+			}
+			return o
+		}
+		as, bs, first = keep(as), keep(bs), keep(first)
+	}
 	// interleave the two lists proportionally, so that an internal deadline cuts all parts alike
-	var out []item
+	out := append([]item{}, first...)
 	i, j := 0, 0
 	for i < len(as) || j < len(bs) {
 		if j >= len(bs) || (i < len(as) && i*len(bs) <= j*len(as)) {
@@ -99,6 +131,8 @@ type workerOut struct {
 	Skipped    int                 `json:"skipped"`
 	Viol       []viol              `json:"viol"`
 	B          bResult             `json:"b"`
+	E          eResult             `json:"e"`
+	T          tResult             `json:"t"`
 }
 
 func worker(wi, wn int, p params) {
@@ -162,6 +196,10 @@ func worker(wi, wn int, p params) {
 				runA(cl[2], c, res, sink)
 				res.Family++
 			})
+		case "e":
+			runEChunkIsolated(it.ecases, &out.E, sink)
+		case "t":
+			out.Skipped += runTCombo(scratch, it.nu, it.op, &out.T, sink, deadline)
 		case "b":
 			if reps == nil || bCount >= p.bRecycle {
 				closeNodes(reps)
@@ -192,7 +230,11 @@ func mergeCounts(dst, src map[string]int) {
 func main() {
 	_ = logger.Init(logger.Logging{Env: "prod", Level: "fatal"})
 	var err error
-	scratch, err = os.MkdirTemp("/dev/shm", "c18-")
+	scratchBase := "/dev/shm"
+	if v := os.Getenv("C18_SCRATCH_BASE"); v != "" { // child of a worker: below the worker's scratch directory
+		scratchBase = v
+	}
+	scratch, err = os.MkdirTemp(scratchBase, "c18-")
 	if err != nil {
 		fatal("%v", err)
 	}
@@ -205,6 +247,10 @@ func main() {
 			defer pprof.StopCPUProfile()
 		}
 		bench()
+		return
+	}
+	if ch := ev.Arg("--e-chunk"); ch != "" {
+		eChunkChild(ch)
 		return
 	}
 	if rp := ev.Arg("--replay"); rp != "" {
@@ -233,6 +279,8 @@ func main() {
 	violCounts := map[string]int{}
 	var viols []viol
 	skipped := 0
+	E := eResult{Outcomes: map[string]int{}, Pairs: map[string]int{}}
+	T := tResult{Outcomes: map[string]int{}}
 	cpu := map[string]float64{}
 	var samples []string
 	for _, raw := range results {
@@ -248,6 +296,21 @@ func main() {
 		}
 		mergeCounts(violCounts, w.ViolCounts)
 		viols = append(viols, w.Viol...)
+		mergeCounts(E.Outcomes, w.E.Outcomes)
+		mergeCounts(E.Pairs, w.E.Pairs)
+		E.Layouts += w.E.Layouts
+		E.HookCalls += w.E.HookCalls
+		E.Docs += w.E.Docs
+		E.Dropped += w.E.Dropped
+		E.ExpThenLiv += w.E.ExpThenLiv
+		mergeCounts(T.Outcomes, w.T.Outcomes)
+		T.Cases += w.T.Cases
+		T.Tripped += w.T.Tripped
+		T.Unsettled += w.T.Unsettled
+		T.PollCapHit += w.T.PollCapHit
+		if w.T.MaxPolls > T.MaxPolls {
+			T.MaxPolls = w.T.MaxPolls
+		}
 		mergeCounts(B.Outcomes, w.B.Outcomes)
 		B.Cases += w.B.Cases
 		B.NontrivCases += w.B.NontrivCases
@@ -288,6 +351,12 @@ func main() {
 	if skipped > 0 {
 		r.NotExhaustive(fmt.Sprintf("internal deadline: %d work items skipped", skipped))
 	}
+	if T.Unsettled > 0 {
+		r.NotExhaustive(fmt.Sprintf("(t) %d cases in which the index did not finish its background merge within 10 s before the build (executed and judged, but a later index snapshot may hide a stale tree)", T.Unsettled))
+	}
+	if T.PollCapHit > 0 {
+		r.NotExhaustive(fmt.Sprintf("(t) %d (base, op) combinations whose build polls its context more than %d times", T.PollCapHit, tPollCap))
+	}
 	// report
 	sort.Slice(viols, func(i, j int) bool { return viols[i].Key < viols[j].Key })
 	for _, v := range viols {
@@ -298,6 +367,19 @@ func main() {
 	mergeCounts(outcomes, A["1"].Outcomes)
 	mergeCounts(outcomes, A["2"].Outcomes)
 	mergeCounts(outcomes, dres.Outcomes)
+	mergeCounts(outcomes, E.Outcomes)
+	mergeCounts(outcomes, T.Outcomes)
+	r.Set("e_layouts_x_expiry", E.Layouts)
+	r.Set("e_max_letters", p.eLen)
+	r.Set("e_merge_hook_calls_layout_x_segment_cut", E.HookCalls)
+	r.Set("e_documents_judged", E.Docs)
+	r.Set("e_documents_dropped_by_hook", E.Dropped)
+	r.Set("e_expired_tombstone_directly_followed_by_live_document", E.ExpThenLiv)
+	r.Set("e_adjacent_class_pairs_in_document_order", E.Pairs)
+	r.Set("t_cases_base_x_op_x_fault_point", T.Cases)
+	r.Set("t_cases_build_canceled", T.Tripped)
+	r.Set("t_max_context_polls_of_a_build", T.MaxPolls)
+	r.Set("t_cases_index_not_settled", T.Unsettled)
 	r.Set("states", B.States)
 	r.Set("transitions", B.Transitions)
 	r.Set("traces_validated_against_impl", B.Executions+A["1"].Histories+A["2"].Histories)
@@ -348,6 +430,8 @@ func main() {
 		ev.Tier(), A["1"].Histories, p.a1Depth, A["2"].Histories, p.a2Depth, A["1"].Queries+A["2"].Queries,
 		B.Cases, B.States, B.Transitions, B.Changing, B.Executions, B.ExchangeSteps, B.MaxStates, B.MaxDepth, B.SeqWalked, B.SeqConnected, B.CrossSeqs,
 		dres.Cases, len(outcomes))
+	fmt.Printf("  (e) %d layouts x expiry, %d merge-hook calls, %d documents judged, %d dropped, %d x expired tombstone directly before a live document, %d adjacent class pairs; (t) %d cases (%d builds canceled, max %d polls, %d unsettled)\n",
+		E.Layouts, E.HookCalls, E.Docs, E.Dropped, E.ExpThenLiv, len(E.Pairs), T.Cases, T.Tripped, T.MaxPolls, T.Unsettled)
 	fmt.Printf("  cpu seconds by part: %v\n", cpu)
 	keys := make([]string, 0, len(violCounts))
 	for k := range violCounts {
@@ -406,6 +490,26 @@ func replay(path string) {
 		for r := 0; r < 3; r++ {
 			fmt.Printf("  replica %d: K1=%s K2=%s\n", r, top(x.st[r][0]), top(x.st[r][1]))
 		}
+	case "e":
+		var c ecase
+		if err := json.Unmarshal(doc.Artefact.Case, &c); err != nil {
+			fatal("%v", err)
+		}
+		runE(scratch, c, &eResult{}, sink)
+	case "echunk":
+		var cs []ecase
+		if err := json.Unmarshal(doc.Artefact.Case, &cs); err != nil {
+			fatal("%v", err)
+		}
+		runEChunkIsolated(cs, &eResult{}, sink)
+	case "t":
+		var c tcase
+		if err := json.Unmarshal(doc.Artefact.Case, &c); err != nil {
+			fatal("%v", err)
+		}
+		tr := &tResult{}
+		runT(scratch, c, tr, sink)
+		fmt.Printf("  outcomes: %v\n", tr.Outcomes)
 	case "d":
 		var c dcase
 		if err := json.Unmarshal(doc.Artefact.Case, &c); err != nil {
